@@ -64,3 +64,23 @@ fn c13_guard_rect_center_differs_fails() {
     let r = rect();
     assert!(r.center() == Vec2::new(r.x, r.y));
 }
+
+/// collision vector on integer boxes: per axis, `max1 - min2` when the (truncated) centre of self lies before the centre of other, else
+/// `min1 - max2`; translating self by minus that component makes the boxes touch on that axis (2D and 3D)
+#[kani::proof]
+fn c13_collision_vector_i8() {
+    let a = Aabr { min: Vec2::new(small(), small()), max: Vec2::new(small(), small()) };
+    let b = Aabr { min: Vec2::new(small(), small()), max: Vec2::new(small(), small()) };
+    let v = a.collision_vector_with_aabr(b);
+    let (c1, c2) = (a.center(), b.center());
+    assert!(c1.x == (a.min.x + a.max.x) / 2 && c2.y == (b.min.y + b.max.y) / 2);
+    assert!(v.x == if c1.x < c2.x { a.max.x - b.min.x } else { a.min.x - b.max.x });
+    assert!(v.y == if c1.y < c2.y { a.max.y - b.min.y } else { a.min.y - b.max.y });
+    assert!(a.max.x - v.x == b.min.x || a.min.x - v.x == b.max.x);
+    let a3 = Aabb { min: Vec3::new(small(), small(), small()), max: Vec3::new(small(), small(), small()) };
+    let b3 = Aabb { min: Vec3::new(small(), small(), small()), max: Vec3::new(small(), small(), small()) };
+    let w = a3.collision_vector_with_aabb(b3);
+    let (d1, d2) = (a3.center(), b3.center());
+    assert!(w.z == if d1.z < d2.z { a3.max.z - b3.min.z } else { a3.min.z - b3.max.z });
+    assert!(a3.max.z - w.z == b3.min.z || a3.min.z - w.z == b3.max.z);
+}
